@@ -30,7 +30,7 @@ ASSUMPTIONS = [
 TRUSTED = [
     'K1 (C14): harness/vconsts --commands dumps `as i32` of every variant and from_command_id over ids -65536..65536 (+ far ids); ids outside the scanned range are assumed to panic (random i32 ids are compared in K2)',
     'K1 (C14): struct offsets of Generated/GenLayout.v are computed from the source by the repr(C, packed(4)) rule in tools/props/wire_k1.py and cross-checked with the compiler\'s size_of constants',
-    'the harness reconstructs the listener call from user-visible effects (user callbacks, find_* results, Image / Publication / Subscription getters); for exclusive publications the limit / status counter ids are not observable (find_exclusive_publication is pub(crate)) and are echoed',
+    'the harness reconstructs the listener call from user-visible effects (user callbacks, find_* results, Image / Publication / Subscription getters); for exclusive publications the limit / status counter ids are read from the ExclusivePublication that find_exclusive_publication (pub(crate), reached through the add-only hook ClientConductor::find_exclusive_publication_for_verif, hooks/cond-find-exclusive.diff) hands out; while the repository lacks the hook they are echoed (extra check "hook ...")',
 ]
 PER_CASE_TIMEOUT = 5.0
 
@@ -107,6 +107,9 @@ def generate(rng, tier):
             add(ev='pubready', c0=rng.choice(b64), excl=0, reg=rng.choice(b64), session=v, stream=rng.choice(b32), limit=cid(), status=rng.choice(b32), pk=1, pn=9)
             add(ev='pubready', c0=rng.choice(b64), excl=rng.choice([0, 1]), reg=None, session=rng.choice(b32), stream=v, limit=cid(), status=rng.choice(b32), pk=2, pn=9)
             add(ev='pubready', c0=rng.choice(b64), excl=0, reg=rng.choice(b64), session=rng.choice(b32), stream=rng.choice(b32), limit=cid(), status=v, pk=3, pn=9)
+            # exclusive: the limit / status ids are observed through the hook find_exclusive_publication_for_verif (echoed without it)
+            add(ev='pubready', c0=rng.choice(b64), excl=1, reg=None, session=v, stream=rng.choice(b32), limit=cid(), status=rng.choice(b32), pk=4, pn=9)
+            add(ev='pubready', c0=rng.choice(b64), excl=1, reg=None, session=rng.choice(b32), stream=rng.choice(b32), limit=cid(), status=v, pk=5, pn=9)
         for n in _lens(rng, 36, extra=(SCRATCH - 36 + 1, SCRATCH - 36 + 2, SCRATCH - 36 + 25)):
             if _path_ok(n):
                 add(ev='pubready', c0=rng.choice(b64), excl=rng.choice([0, 1]), reg=None, session=rng.choice(b32), stream=rng.choice(b32),
@@ -333,3 +336,16 @@ def shrink(c):
     return out
 
 K1_DEPENDS = ['wire_k1']   # source/runtime tables this property rests on (tools/vlib/runner.py)
+
+
+def extra_checks(run):
+    """Says in the evidence whether the exclusive-publication ids are observed or echoed (hook present / absent)."""
+    import os
+    from vlib import core
+    try:
+        ok = 'fn find_exclusive_publication_for_verif' in open(os.path.join(core.REPO, 'src', 'client_conductor.rs')).read()
+    except OSError:
+        ok = False
+    return [(True, 'hook find_exclusive_publication_for_verif',
+             'present: limit / status counter ids, original registration id and log file of exclusive publications are observed through find_exclusive_publication' if ok else
+             'ABSENT in the repository under test: limit / status counter ids of exclusive publications are echoed from the event, not observed')]
